@@ -22,6 +22,10 @@ def gen_scripts(rep, name, module, cfg_text, consts, max_obs=400, timeout=3000):
     return scripts
 
 
+# operations the specification covers beyond the listed properties: judged, reported, never a verdict on a property
+EXTENSION_OPS = {"Plug", "Unplug", "GetBQM"}
+
+
 def run_and_validate(rep, layer, adapter_fn, trace_module, scripts, variants, label, variant_key=None, procs=16,
                      batch_lines=20000, extra_env=None):
     traces = pipeline.exec_scripts("harness.value_adapter" if "." not in adapter_fn else adapter_fn.rsplit(".", 1)[0],
@@ -37,10 +41,20 @@ def run_and_validate(rep, layer, adapter_fn, trace_module, scripts, variants, la
         t = by_tid[tid]
         for (line, clause) in v["rejects"]:
             st = t["steps"][line - 1]
+            if st["op"]["op"] in EXTENSION_OPS:
+                b = rep.extra.setdefault("beyond_listed_properties", {"ops": sorted(EXTENSION_OPS), "mismatches": 0, "samples": []})
+                b["mismatches"] += 1
+                if len(b["samples"]) < 3:
+                    b["samples"].append({"script": [s["op"] for s in t["steps"][:line]], "clause": clause, "observed": st["res"]})
+                continue
             rep.rejects.append(Reject(layer, str(t.get(variant_key, "")) if variant_key else "", st["op"]["op"], clause,
                                       [s["op"] for s in t["steps"][:line]], line,
                                       {"observed_out": st["out"], "observed_res": st["res"],
                                        "variant": {k: t.get(k) for k in (variant_key,) if k}}))
+    nx = sum(1 for t in traces for s in t["steps"] if s["op"]["op"] in EXTENSION_OPS)
+    if nx:
+        b = rep.extra.setdefault("beyond_listed_properties", {"ops": sorted(EXTENSION_OPS), "mismatches": 0, "samples": []})
+        b["lines_judged"] = b.get("lines_judged", 0) + nx
     for t in traces[:2]:
         rep.add_sample({"script": [s["op"] for s in t["steps"][:5]], "observed": [[s["out"], s["res"]] for s in t["steps"][:5]]})
     return traces, verdicts
